@@ -21,6 +21,35 @@ func main() {
 		cmdVerify(os.Args[2:])
 	case "check":
 		cmdCheck(os.Args[2:])
+	case "params":
+		// records the parameter / result names of every function under contract (the positions
+		// the names in the contracts stand for): written to /verif/contract-params.json
+		w, err := loadWorld("/repo", []string{"./..."})
+		if err != nil {
+			fmt.Fprintln(os.Stderr, err)
+			os.Exit(2)
+		}
+		out := map[string]map[string][]string{}
+		for _, it := range w.items {
+			if it.Kind != "func" {
+				continue
+			}
+			fn := w.findFunc(it.Pkg, it.Name)
+			if fn == nil {
+				continue
+			}
+			var ps, rs []string
+			for _, p := range fn.Params {
+				ps = append(ps, p.Name())
+			}
+			res := fn.Signature.Results()
+			for i := 0; i < res.Len(); i++ {
+				rs = append(rs, res.At(i).Name())
+			}
+			out[it.Pkg+"::"+it.Name] = map[string][]string{"params": ps, "results": rs}
+		}
+		b, _ := json.MarshalIndent(out, "", " ")
+		fmt.Println(string(b))
 	case "funcs":
 		w, err := loadWorld("/repo", []string{"./..."})
 		if err != nil {
